@@ -1,14 +1,14 @@
 #!/usr/bin/env python3
 """Regenerates seeded/SUMMARY.md from seeded/*/meta.json."""
 import json, glob, os
-rows = {1: [], 2: [], 3: [], 4: [], 5: [], 6: [], 7: []}
+rows = {1: [], 2: [], 3: [], 4: [], 5: [], 6: [], 7: [], 8: []}
 for d in sorted(glob.glob('/verif/seeded/C*')):
     m = json.load(open(d + '/meta.json'))
     sid = os.path.basename(d)
     rows[m.get('round', 1)].append((sid, m))
 out = ["# Seeded changes (written by sub-agents that saw only the property text and a scratch worktree)\n",
        "Every change was confirmed by `seedtest.sh` (eino's own suite passes with it; the sub-agent's demonstration test fails with it and passes without) before the checks were run against it through `VERIF_PATCH_DIR`. `<ID>/patch.diff`, `<ID>/demo/`, `<ID>/meta.json`.\n"]
-for rnd in (1, 2, 3, 4, 5, 6, 7):
+for rnd in (1, 2, 3, 4, 5, 6, 7, 8):
     out.append(f"\n## Round {rnd}\n")
     out.append("| seed | change | needs to manifest | detection |\n|---|---|---|---|")
     for sid, m in rows[rnd]:
